@@ -78,6 +78,10 @@ def extract(config="default", repo=None, quiet=True):
     outdir = os.path.join(CACHE, "facts", th, config)
     fact = os.path.join(outdir, "pdf-rlib.json")
     if os.path.exists(fact) and os.path.getsize(fact) > 1000:
+        try:
+            os.utime(os.path.dirname(outdir))
+        except OSError:
+            pass
         return fact
     os.makedirs(CACHE, exist_ok=True)
     lock = open(os.path.join(CACHE, ".lock"), "w")
